@@ -209,6 +209,39 @@ theorem C01_quiescent_delivery (cfgA cfgB : Cfg) (sch : List SysEv)
     have := drained_delivery s.b s.a s.toA hi.ib hi.ia wb hw.2 hi.wireA hd
     exact ⟨this.2.2.1, this.2.2.2⟩
 
+/-- **Success at quiescence.** In any reachable state of the two-endpoint system in which the
+    direction A → B has drained, the return direction B → A holds nothing either (B's two transmit
+    buffers and the wire empty), and A never had to send a MSG_REJECT: every bundle A's user ever
+    queued has been reported `send_bundle_finished(…, 'success')` (by `C18_finished_once` exactly once)
+    and A's send queue is empty — and symmetrically for B. The MSG_REJECT premise is an observable of
+    the run; that two faithful endpoints never reject each other is checked by the monitors, not proved. -/
+theorem C01_quiescent_success (cfgA cfgB : Cfg) (sch : List SysEv)
+    (a1 : 0 < cfgA.segInit) (a2 : cfgA.privExt = false) (a3 : 0 < cfgA.segMru)
+    (b1 : 0 < cfgB.segInit) (b2 : cfgB.privExt = false) (b3 : 0 < cfgB.segMru)
+    (hwf : ∀ pre, pre <+: sch → SysWF (runSys (initSys cfgA cfgB) pre))
+    (hs : ∀ ev ∈ sch, ev.sendOK) :
+    let s := runSys (initSys cfgA cfgB) sch
+    (Drained s.a s.b s.toB → s.b.txBuf = [] → s.b.connBuf = [] → s.toA = [] →
+        (∀ m ∈ s.a.emitted, m.isRej = false) →
+        (∀ it ∈ s.a.sendLog, it.tid ∈ s.a.successLog) ∧ s.a.txMap = [])
+    ∧ (Drained s.b s.a s.toA → s.a.txBuf = [] → s.a.connBuf = [] → s.toB = [] →
+        (∀ m ∈ s.b.emitted, m.isRej = false) →
+        (∀ it ∈ s.b.sendLog, it.tid ∈ s.b.successLog) ∧ s.b.txMap = []) := by
+  intro s
+  have hi : SysInv s := sysInv_run sch _ (sysInv_init cfgA cfgB a1 a2 a3 b1 b2 b3) hwf hs
+  have hw : SysWF s := hwf sch (List.prefix_refl _)
+  obtain ⟨wa, wb⟩ := C01_no_lost_wakeup cfgA cfgB sch a1 a2 a3 b1 b2 b3 hwf hs
+  obtain ⟨qa, qb⟩ := sys_lift_init (fun e => QInv e ∧ SP e)
+    (fun e ev h => ⟨h.1.step e ev, sp_step e ev h.1 h.2⟩)
+    (fun cfg => ⟨QInv.init cfg, sp_init cfg⟩) cfgA cfgB sch
+  obtain ⟨sa, sb⟩ := sys_lift_init ASInv asInv_step asInv_init cfgA cfgB sch
+  obtain ⟨ra, rb⟩ := sys_lift_init RxAckInv rxAckInv_step rxAckInv_init cfgA cfgB sch
+  constructor
+  · intro hd h1 h2 h3 hn
+    exact drained_success s.a s.b s.toB s.toA hi.ia hi.ib wa hw.1 hw.2 hi.wireB hi.wireA hd h1 h2 h3 qa.1 qa.2 sa rb hn
+  · intro hd h1 h2 h3 hn
+    exact drained_success s.b s.a s.toA s.toB hi.ib hi.ia wb hw.2 hw.1 hi.wireA hi.wireB hd h1 h2 h3 qb.1 qb.2 sb ra hn
+
 /-! ### non-vacuity: a concrete two-endpoint run meeting every hypothesis and delivering a bundle -/
 
 namespace Example
@@ -237,6 +270,10 @@ instance (w r : Ep) (p : Bytes) : Decidable (Drained w r p) :=
     `C01_quiescent_delivery` is satisfiable (and its conclusion visible) -/
 example : let s := runSys (initSys cfgA cfgB) (sched ++ [.atA .procQueue])
     Drained s.a s.b s.toB ∧ s.b.rxLog = s.a.sendLog.map (fun it => (it.tid, it.data)) ∧ s.a.successLog = [1] := by
+  decide +kernel
+/-- … and the further premises of `C01_quiescent_success` hold there too -/
+example : let s := runSys (initSys cfgA cfgB) (sched ++ [.atA .procQueue])
+    s.b.txBuf = [] ∧ s.b.connBuf = [] ∧ s.toA = [] ∧ (s.a.emitted.all fun m => !m.isRej) = true ∧ s.a.txMap = [] := by
   decide +kernel
 end Example
 
